@@ -129,6 +129,75 @@ def build_facts(cfg="B", repo=REPO, quiet=True):
         lock.close()
 
 
+OMIR_FLAGS = "-Zmir-opt-level=3 -Zinline-mir=yes -Zinline-mir-threshold=400 -Zinline-mir-hint-threshold=400 -Awarnings"
+
+
+def omir_path(cfg, repo=REPO):
+    return os.path.join(CACHE, "omir-%s-%s.jsonl" % (cfg, tree_hash(repo)))
+
+
+def build_omir(cfg="B", repo=REPO, quiet=True):
+    """Optimised-MIR bodies (the compiler as normaliser) of (repo tree, cfg); see engine/equiv.py."""
+    os.makedirs(CACHE, exist_ok=True)
+    out = omir_path(cfg, repo)
+    if os.path.exists(out) and os.path.getsize(out) > 0:
+        try:
+            os.utime(out, None)
+        except OSError:
+            pass
+        return out
+    lock = open(os.path.join(CACHE, "build-omir-%s.lock" % cfg), "w")
+    fcntl.flock(lock, fcntl.LOCK_EX)
+    try:
+        if os.path.exists(out) and os.path.getsize(out) > 0:
+            return out
+        ensure_driver()
+        target = os.path.join(CACHE, "target-omir-%s" % cfg)
+        for p in glob.glob(os.path.join(target, "debug", ".fingerprint", "rpki-*")):
+            shutil.rmtree(p, ignore_errors=True)
+        tmp = out + ".tmp.%d" % os.getpid()
+        env = dict(os.environ)
+        env.update({
+            "CARGO_INCREMENTAL": "0",
+            "CARGO_NET_OFFLINE": "true",
+            "RUSTFLAGS": OMIR_FLAGS,
+            "RUSTC_WORKSPACE_WRAPPER": DRIVER,
+            "VERIF_OMIR_OUT": tmp,
+            "CARGO_TARGET_DIR": target,
+            "LD_LIBRARY_PATH": _sysroot() + "/lib:" + os.environ.get("LD_LIBRARY_PATH", ""),
+        })
+        env.pop("RUSTC_WRAPPER", None)
+        env.pop("VERIF_FACTS_OUT", None)
+        cmd = ["cargo", "+nightly", "check", "--offline", "--lib"] + CONFIGS[cfg]
+        t0 = time.time()
+        r = subprocess.run(cmd, cwd=repo, env=env, stdout=subprocess.PIPE, stderr=subprocess.STDOUT, text=True)
+        if r.returncode != 0:
+            if os.path.exists(tmp):
+                os.remove(tmp)
+            raise BuildError("cargo check (omir, config %s) failed:\n%s" % (cfg, r.stdout[-6000:]))
+        if not os.path.exists(tmp) or os.path.getsize(tmp) == 0:
+            raise BuildError("driver produced no optimised MIR for config %s\n%s" % (cfg, r.stdout[-3000:]))
+        with open(tmp, "rb") as fh:
+            fh.seek(max(0, os.path.getsize(tmp) - 4096))
+            tail = fh.read().decode("utf-8", "replace")
+        if '"rec":"ometa"' not in tail:
+            raise BuildError("optimised-MIR file truncated")
+        os.replace(tmp, out)
+        if not quiet:
+            print("omir[%s] built in %.1fs -> %s" % (cfg, time.time() - t0, out))
+        fs = sorted(glob.glob(os.path.join(CACHE, "omir-%s-*.jsonl" % cfg)), key=os.path.getmtime)
+        for p in fs[:-4]:
+            if p != out:
+                try:
+                    os.remove(p)
+                except OSError:
+                    pass
+        return out
+    finally:
+        fcntl.flock(lock, fcntl.LOCK_UN)
+        lock.close()
+
+
 def _gc(cfg, keep, max_files=8):
     """Keep the cache small: only the most recent fact files per config."""
     fs = sorted(glob.glob(os.path.join(CACHE, "facts-%s-*.jsonl" % cfg)), key=os.path.getmtime)
